@@ -21,7 +21,8 @@ ASSUMPTIONS = [
     "error messages are mapped to rule kinds by the regex classifier in harness/c20.py; a message no pattern matches is counted as `unclassified` (the case is then compared on raise/emptiness only)",
     "default values: const literals / Python values over null, int, non-integral float, string (not an enum value name), bool, enum name, list, object; built-in scalars by their documented literal ranges, custom scalars accept everything (default parse functions)",
     "when a default value meets a type that is not an input type (declared type or a nested input field type) the model does not validate it there; presence of the kind `invalid default` is then not compared (the position error is)",
-    "not generated (constructor-level, outside validate_schema): duplicate type names, duplicate field/arg/enum value names, NonNull of NonNull, redefinition of specified scalars/introspection types, non-type objects in type positions",
+    "objects that are not GraphQL types/directives are generated as named, hashable dummy objects in every position validate.py handles (type map, field/argument/input field type, interface list, union member, root operation type, directive list)",
+    "not generated (rejected by the constructors or outside validate_schema): duplicate type names, duplicate field/argument/enum value names in one definition, NonNull of NonNull, redefinition of specified scalars/introspection types, unnamed non-type objects (None, numbers) in type positions, custom scalars with their own coercion functions, schemas built with assume_valid=True (validation is switched off by the caller)",
 ]
 
 BUILTIN = ["Int", "Float", "String", "Boolean", "ID"]
@@ -406,7 +407,7 @@ def dump_schema(schema):
     from graphql.type import (GraphQLEnumType, GraphQLInputObjectType, GraphQLInterfaceType,
                               GraphQLList, GraphQLNamedType, GraphQLNonNull, GraphQLObjectType,
                               GraphQLScalarType, GraphQLUnionType, GraphQLDirective,
-                              is_introspection_type, is_specified_directive, is_specified_scalar_type)
+                              is_introspection_type, is_specified_scalar_type, specified_directives)
     enum_names = set()
     for t in schema.type_map.values():
         if isinstance(t, GraphQLEnumType):
@@ -468,7 +469,7 @@ def dump_schema(schema):
             dirs.append({"name": getattr(d, "name", None) if isinstance(getattr(d, "name", None), str) else "str",
                          "bogus": True, "locations": [], "args": []})
             continue
-        if is_specified_directive(d):
+        if any(d is sd for sd in specified_directives):
             continue
         dirs.append({"name": d.name, "locations": [l.name for l in d.locations],
                      "args": [inval(an, a) for an, a in d.args.items()]})
@@ -1717,7 +1718,16 @@ def M_bogus_directive(S, r):
     return True
 
 
+def M_redefine_specified_directive(S, r):
+    """A user directive that takes the name of a specified one is validated like any other."""
+    S["directives"].append({"name": r.choice(["skip", "include"]), "locations": ["FIELD"],
+                            "args": [{"name": r.choice(["if", "__x"]), "type": _noninput(S, r) if r.random() < 0.6 else tn("Boolean"),
+                                      "dep": False, "default": None}]})
+    return True
+
+
 MUTATIONS += [
+    M_redefine_specified_directive,
     M_default_missing_required, M_default_unknown_field, M_default_oneof_two, M_default_oneof_null,
     M_default_oneof_empty, M_default_nested_bad, M_default_wrong_leaf, M_default_null_item,
     M_reverse_covariance, M_covariance_list_depth, M_default_cycle_nested,
@@ -2011,7 +2021,7 @@ class Runner:
                 else:
                     kinds.add(k)
             if ob.get("cached") is False:
-                self.group("cache", size, f"cache:{h}", "a second validate_schema call did not return the cached list", replay)
+                ck.count("second_call_returned_a_new_list")   # observation only: the property does not fix caching
             if ob["sync"] != "ok":
                 self.group("sync:" + ob["sync"][:30], size, f"graphql_sync:{h}",
                            f"graphql_sync on the schema: {ob['sync']}", replay)
